@@ -429,33 +429,176 @@ def r14_4_5(rep: Report) -> None:
     # R14.5
     mc = need(find_func(cls, 'create_manifest_context'), 'create_manifest_context')
     c2 = f'{rel}::RepeatingEventBase.create_manifest_context'
-    fors = [n for n in ast.walk(mc) if isinstance(n, ast.For)]
-    ok_range = any(norm(f.iter) == 'range(self.count)' for f in fors)
-    if ok_range:
-        rep.ok('R14.5', c2, 'ids 0..count-1')
-    else:
-        rep.fail('R14.5', c2, 'ids 0..count-1', 'listing does not iterate range(self.count)', mc)
-    txt = norm(mc)
-    ev = [d for d in ast.walk(mc) if isinstance(d, ast.Dict)
-          and any(isinstance(k, ast.Constant) and k.value == 'id' for k in d.keys)]
-    idv = None
-    if ev:
-        idv = {k.value: norm(v) for k, v in zip(ev[0].keys, ev[0].values) if isinstance(k, ast.Constant)}
-    if idv and idv.get('id') == 'idx' and idv.get('presentationTime') == 'presentation_time':
-        rep.ok('R14.5', c2, 'event id is the loop index, time is the running time')
-    else:
-        rep.fail('R14.5', c2, 'event id is the loop index, time is the running time',
-                 f'listed event is {idv}', mc)
-    for label, needle in (
-                          ('starts at self.start', 'presentation_time = self.start'),
-                          ('advances by interval', 'presentation_time += self.interval'),
-                          ("time is listed", "'presentationTime': presentation_time"),
-                          ('payload built from (idx, time)',
-                           'self.get_manifest_event_payload(idx, presentation_time)')):
-        if needle in txt:
-            rep.ok('R14.5', c2, label)
+    r14_5(rep, mc, c2)
+
+
+class _Stuck(Exception):
+    pass
+
+
+def r14_5(rep: Report, mc: ast.FunctionDef, c2: str) -> None:
+    """R14.5  the out-of-band listing, decided by evaluating the listing code (normal form) with this module's
+    own evaluator - no repository code runs: `self.start` = S and `self.interval` = I stay symbols (values are
+    linear forms a + b*S + c*I), `self.count` takes the values 0..4, `self.inband` is false.  The events
+    appended must be exactly id = k, presentationTime = S + k*I for k = 0..count-1, each with the payload
+    built from that (id, time).  How the loop is written (range / counter / generator helper / comprehension)
+    does not matter."""
+    def lin_add(a, b, sg=1):
+        out = dict(a)
+        for k_, v_ in b.items():
+            out[k_] = out.get(k_, 0) + sg * v_
+        return {k_: v_ for k_, v_ in out.items() if v_}
+
+    def ev(e, env, n):
+        if isinstance(e, ast.Constant) and isinstance(e.value, (int, bool)):
+            return {'': int(e.value)} if e.value else {}
+        if isinstance(e, ast.Name):
+            if e.id in env:
+                return env[e.id]
+            raise _Stuck(e.id)
+        if isinstance(e, ast.Attribute) and norm(e.value) == 'self':
+            if e.attr == 'start':
+                return {'S': 1}
+            if e.attr == 'interval':
+                return {'I': 1}
+            if e.attr == 'count':
+                return {'': n} if n else {}
+            if e.attr == 'inband':
+                return {}
+            raise _Stuck(norm(e))
+        if isinstance(e, ast.BinOp) and isinstance(e.op, (ast.Add, ast.Sub)):
+            return lin_add(ev(e.left, env, n), ev(e.right, env, n), 1 if isinstance(e.op, ast.Add) else -1)
+        if isinstance(e, ast.BinOp) and isinstance(e.op, ast.Mult):
+            l_, r_ = ev(e.left, env, n), ev(e.right, env, n)
+            for a_, b_ in ((l_, r_), (r_, l_)):
+                if set(a_) <= {''}:
+                    c_ = a_.get('', 0)
+                    return {k_: v_ * c_ for k_, v_ in b_.items() if v_ * c_}
+            raise _Stuck(norm(e))
+        if isinstance(e, ast.UnaryOp) and isinstance(e.op, ast.USub):
+            return {k_: -v_ for k_, v_ in ev(e.operand, env, n).items()}
+        raise _Stuck(norm(e))
+
+    def const(v):
+        if set(v) <= {''}:
+            return v.get('', 0)
+        raise _Stuck('not a constant')
+
+    def truth(t, env, n):
+        if isinstance(t, ast.UnaryOp) and isinstance(t.op, ast.Not):
+            return not truth(t.operand, env, n)
+        if isinstance(t, ast.BoolOp):
+            vals = [truth(v_, env, n) for v_ in t.values]
+            return all(vals) if isinstance(t.op, ast.And) else any(vals)
+        if isinstance(t, ast.Compare) and len(t.ops) == 1:
+            d = lin_add(ev(t.left, env, n), ev(t.comparators[0], env, n), -1)
+            c_ = const(d)
+            return {ast.Lt: c_ < 0, ast.LtE: c_ <= 0, ast.Gt: c_ > 0, ast.GtE: c_ >= 0, ast.Eq: c_ == 0,
+                    ast.NotEq: c_ != 0}[type(t.ops[0])]
+        return const(ev(t, env, n)) != 0
+
+    class _Done(Exception):
+        pass
+
+    def run(stmts, env, n, out, budget):
+        for st in stmts:
+            budget[0] -= 1
+            if budget[0] < 0:
+                raise _Stuck('the listing does not terminate')
+            if isinstance(st, ast.Return):
+                raise _Done()
+            if isinstance(st, ast.If):
+                run(st.body if truth(st.test, env, n) else st.orelse, env, n, out, budget)
+                continue
+            if isinstance(st, ast.For):
+                it = st.iter
+                if not (isinstance(it, ast.Call) and call_name(it) == 'range' and 1 <= len(it.args) <= 2
+                        and isinstance(st.target, ast.Name)):
+                    raise _Stuck(f'for .. in {norm(it)}')
+                lo = const(ev(it.args[0], env, n)) if len(it.args) == 2 else 0
+                hi = const(ev(it.args[-1], env, n))
+                for k in range(lo, hi):
+                    env[st.target.id] = {'': k} if k else {}
+                    run(st.body, env, n, out, budget)
+                continue
+            if isinstance(st, ast.While):
+                while truth(st.test, env, n):
+                    run(st.body, env, n, out, budget)
+                continue
+            record(st, env, n, out)
+            tgt = val = None
+            if isinstance(st, ast.Assign) and len(st.targets) == 1:
+                tgt, val = st.targets[0], st.value
+            elif isinstance(st, ast.AnnAssign) and st.value is not None:
+                tgt, val = st.target, st.value
+            elif isinstance(st, ast.AugAssign):
+                tgt, val = st.target, ast.BinOp(left=ast.Name(id=getattr(st.target, 'id', '?'), ctx=ast.Load()), op=st.op, right=st.value)
+            if isinstance(tgt, ast.Name):
+                env.pop('@call:' + tgt.id, None)
+                try:
+                    env[tgt.id] = ev(val, env, n)
+                except _Stuck:
+                    env.pop(tgt.id, None)       # an object (the EventStream, a payload): not a number
+                    if isinstance(val, ast.Call):
+                        try:
+                            env['@call:' + tgt.id] = tuple(ev(a_, env, n) for a_ in val.args)
+                        except _Stuck:
+                            pass
+
+    def record(st, env, n, out):
+        for d in ast.walk(st):
+            if isinstance(d, ast.Dict) and any(isinstance(k_, ast.Constant) and k_.value == 'id' for k_ in d.keys):
+                row = {}
+                for k_, v_ in zip(d.keys, d.values):
+                    if isinstance(k_, ast.Constant) and k_.value in ('id', 'presentationTime'):
+                        row[k_.value] = ev(v_, env, n)
+                    if isinstance(k_, ast.Constant) and k_.value == 'data':
+                        if isinstance(v_, ast.Call):
+                            row['payload'] = tuple(ev(a_, env, n) for a_ in v_.args)
+                        elif isinstance(v_, ast.Name):
+                            row['payload'] = env.get('@call:' + v_.id)
+                out.append(row)
+    problems: list[tuple[str, str]] = []
+    try:
+        for n in range(0, 5):
+            out: list = []
+            try:
+                run(mc.body, {}, n, out, [4000])
+            except _Done:
+                pass
+            want = [({'': k} if k else {}, lin_add({'S': 1}, {'I': k} if k else {})) for k in range(n)]
+            if len(out) != n:
+                problems.append(('ids 0..count-1', f'count={n}: {len(out)} event(s) are listed'))
+                break
+            for k, (row, (wid, wt)) in enumerate(zip(out, want)):
+                if row.get('id') != wid:
+                    problems.append(('ids 0..count-1', f'count={n}: event {k} is listed with id {row.get("id")}'))
+                if 'presentationTime' not in row:
+                    problems.append(('time is listed', f'event {k} has no presentationTime'))
+                elif row['presentationTime'] != wt:
+                    kind = 'starts at self.start' if k == 0 else 'advances by interval'
+                    problems.append((kind, f'count={n}: event {k} is listed at {row["presentationTime"]} (S = start, I = interval), '
+                                           f'the schedule says {wt}'))
+                if row.get('payload') is None or tuple(row['payload'][:2]) != (wid, wt):
+                    problems.append(('payload built from (idx, time)',
+                                     f'count={n}: the payload of event {k} is built from {row.get("payload")}, not from its own '
+                                     f'(id, time) = ({wid}, {wt})'))
+            if problems:
+                break
+    except _Stuck as err:
+        problems.append(('ids 0..count-1', f'the listing code is not integer arithmetic over start / interval / count (`{err}`): unrecognised'))
+    bad = {}
+    for key, msg in problems:
+        bad.setdefault(key, msg)
+    for key in ('ids 0..count-1', 'event id is the loop index, time is the running time', 'starts at self.start',
+                'advances by interval', 'time is listed', 'payload built from (idx, time)'):
+        msg = bad.get(key)
+        if key == 'event id is the loop index, time is the running time':
+            msg = bad.get('ids 0..count-1') or bad.get('advances by interval')
+        if msg is None:
+            rep.ok('R14.5', c2, key, 'evaluated for count = 0..4: id = k, time = start + k * interval')
         else:
-            rep.fail('R14.5', c2, label, f'expected `{needle}` in the out-of-band listing', mc)
+            rep.fail('R14.5', c2, key, msg, mc)
 
 
 def r14_8(rep: Report) -> None:
